@@ -116,6 +116,45 @@ func c06Merge(c *Ctx, sx *symx.Ctx) {
 		r.Unknown("O-1", fk+"#result", c.P.Pos(fn.Pos()), "no []string result")
 		return
 	}
+	// the merge may be delegated: every exit returns helper(.., terms, ..) of a
+	// repository function; then the helper and its parameter are what is examined
+	for hop := 0; hop < 3; hop++ {
+		var g *ssa.Function
+		gi := -1
+		same := true
+		for _, ret := range ssau.ReturnsOf(fn) {
+			call, ok := ssau.ResultValue(ret, ti).(*ssa.Call)
+			if !ok {
+				same = false
+				break
+			}
+			cal := call.Common().StaticCallee()
+			if cal == nil || cal.Blocks == nil || !c.P.IsRepoFunc(cal) || cal.Signature.Results().Len() != 1 || (g != nil && g != cal) {
+				same = false
+				break
+			}
+			idx := -1
+			for i, a := range call.Common().Args {
+				if a == ssa.Value(terms) || ssau.ParamOf(a) == terms {
+					if idx >= 0 {
+						same = false
+					}
+					idx = i
+				}
+			}
+			if idx < 0 || (gi >= 0 && gi != idx) || idx >= len(cal.Params) {
+				same = false
+				break
+			}
+			g, gi = cal, idx
+		}
+		if !same || g == nil {
+			break
+		}
+		fn, terms, ti = g, g.Params[gi], 0
+		fk = load.FuncKey(g)
+		f = sx.Of(fn)
+	}
 	for _, ret := range ssau.ReturnsOf(fn) {
 		ok, why := prefixExt(f, ssau.ResultValue(ret, ti), terms, map[ssa.Value]bool{})
 		r.Check(ok, "O-1", fk+"#return:"+exitName(fn, ret), c.P.Pos(ret.Pos()), "the returned terms are the lexical terms with enhanced terms appended", "the returned term list is not an append-only extension of the lexical terms: "+why)
@@ -230,8 +269,8 @@ func c06Protected(c *Ctx, sx *symx.Ctx) {
 		b, ok := sl.Elem().Underlying().(*types.Basic)
 		return ok && b.Kind() == types.String
 	}
-	var fn, ff *ssa.Function
-	var termsP, preserveP, listP *ssa.Parameter
+	var fn, ff, ffSplit *ssa.Function
+	var termsP, preserveP, listP, listSplit *ssa.Parameter
 	for _, cand := range shippedFuncs(c) {
 		if pk := c.P.PkgOfFunc(cand); pk == nil || pk.PkgPath != dbPkg || cand.Signature.Results().Len() != 1 || cand.Parent() != nil {
 			continue
@@ -269,6 +308,11 @@ func c06Protected(c *Ctx, sx *symx.Ctx) {
 			})
 			if lp != nil && readsOrig {
 				ff, listP = cand, lp
+			}
+			if lp != nil && !readsOrig && ffSplit == nil {
+				if sp, _ := c06ClassifierCall(c, cand, lp); sp != nil {
+					ffSplit, listSplit = cand, lp
+				}
 			}
 			if lp == nil && readsOrig && ff == nil && c06SplitCall(cand) != nil {
 				ff = cand // the prefix-split form: the scored list is a local
@@ -327,7 +371,12 @@ func c06Protected(c *Ctx, sx *symx.Ctx) {
 	if ff != nil {
 		fk2 = load.FuncKey(ff)
 	}
-	if ff != nil && listP == nil {
+	if ff == nil && ffSplit != nil {
+		// classification in a helper returning (originals, enhanced)
+		fk2 = load.FuncKey(ffSplit)
+		ok, why := c06ClassifierForm(c, ffSplit, listSplit)
+		r.Check(ok, "O-3", fk2+"#every-original-kept", c.P.Pos(ffSplit.Pos()), "the terms of every original item are appended first, unconditionally", why)
+	} else if ff != nil && listP == nil {
 		// prefix-split form
 		ok, why := c06PrefixSplit(c, ff, fn, termsP, preserveP)
 		r.Check(ok, "O-3", fk2+"#every-original-kept", c.P.Pos(ff.Pos()), "the protected terms are a prefix of the scored list; everything before the first unprotected term is returned first", why)
@@ -648,8 +697,12 @@ func c06Window(c *Ctx, sx *symx.Ctx) {
 			return
 		}
 		nCuts++
-		if !c06AtLeastLimit(c, sl.High, nil, 0) {
-			bad = f.Plain(sl.High)
+		hi := sl.High
+		if w := c06MinWithOwnLen(f, sl); w != nil {
+			hi = w // list[:min(len(list), w)]: the window is w
+		}
+		if !c06AtLeastLimit(c, hi, nil, 0) {
+			bad = f.Plain(hi)
 		}
 	})
 	r.Check(nCuts > 0 && bad == "", "O-6", fk+"#window-multiplier", c.P.Pos(fn.Pos()), "every cut keeps at least Limit candidates (Limit times a constant >= 1, raised by floors)", "the re-rank window "+bad+" is not shown to be at least the requested limit: candidates within the requested limit can be cut before re-ranking")
@@ -661,6 +714,10 @@ func c06Window(c *Ctx, sx *symx.Ctx) {
 			return
 		}
 		n++
+		if c06MinWithOwnLen(f, sl) != nil {
+			r.OK("O-6", fmt.Sprintf("%s#window-cut-%d-guarded", fk, n), c.P.Pos(sl.Pos()), "cut at min(len(list), window): never beyond the list")
+			return
+		}
 		// guard len(x) > High on the same values
 		cut := map[[2]int]bool{}
 		for _, iff := range ssau.Ifs(fn) {
@@ -1024,4 +1081,216 @@ func c06FlattensTerms(g *ssa.Function) bool {
 		}
 	}
 	return true
+}
+
+// c06MinWithOwnLen: sl is list[:min(len(list), w)] (either argument order,
+// builtin min or the repository's Min); returns w.
+func c06MinWithOwnLen(f *symx.Fn, sl *ssa.Slice) ssa.Value {
+	call, ok := sl.High.(*ssa.Call)
+	if !ok || len(call.Common().Args) != 2 {
+		return nil
+	}
+	if n := ssau.CallName(call); n != "builtin.min" && !strings.HasSuffix(n, "utils.Min") {
+		return nil
+	}
+	a := call.Common().Args
+	want := "len(" + f.E(sl.X) + ")"
+	switch {
+	case f.E(a[0]) == want:
+		return a[1]
+	case f.E(a[1]) == want:
+		return a[0]
+	}
+	return nil
+}
+
+// c06ClassifierCall: fn calls a repository helper with its scored list lp
+// (argument or receiver) that returns the items with isOriginal as one of its
+// results; the call and the index of that result.
+func c06ClassifierCall(c *Ctx, fn *ssa.Function, lp *ssa.Parameter) (*ssa.Call, int) {
+	var out *ssa.Call
+	oi := -1
+	ssau.ForEachInstr(fn, false, func(in ssa.Instruction) {
+		call, ok := in.(*ssa.Call)
+		if !ok || out != nil {
+			return
+		}
+		g := call.Common().StaticCallee()
+		if g == nil || g.Blocks == nil || !c.P.IsRepoFunc(g) || g.Signature.Results().Len() < 2 {
+			return
+		}
+		for i, a := range call.Common().Args {
+			if (a == ssa.Value(lp) || ssau.ParamOf(a) == lp) && i < len(g.Params) {
+				if k := c06OriginalsResult(g, g.Params[i]); k >= 0 {
+					out, oi = call, k
+				}
+			}
+		}
+	})
+	return out, oi
+}
+
+// c06OriginalsResult: g ranges over its list parameter p and appends the
+// element to a list under nothing but the test item.isOriginal; the index of
+// the result that is this list (-1 when g is not of that form).
+func c06OriginalsResult(g *ssa.Function, p *ssa.Parameter) int {
+	ls := ssau.RangeLoops(g)
+	var loop *ssau.RangeLoop
+	for i := range ls {
+		if !ls[i].IsMap && (ls[i].Over == ssa.Value(p) || ssau.ParamOf(ls[i].Over) == p) {
+			if loop != nil {
+				return -1
+			}
+			loop = &ls[i]
+		}
+	}
+	if loop == nil {
+		return -1
+	}
+	cd := ssau.ControlDeps(g)
+	var origApp *ssa.Call
+	n := 0
+	ssau.ForEachInstr(g, false, func(in ssa.Instruction) {
+		call, ok := in.(*ssa.Call)
+		if !ok || ssau.CallName(call) != "builtin.append" || !loop.InLoop(call.Block()) {
+			return
+		}
+		under, only := false, true
+		for _, d := range ssau.TransitiveControlDeps(cd, call.Block()) {
+			if d.Branch == loop.Header {
+				continue
+			}
+			if nm, _ := lastSelector(d.If().Cond); nm == "isOriginal" && d.Then {
+				under = true
+				continue
+			}
+			if nm, _ := lastSelector(d.If().Cond); nm == "isOriginal" && !d.Then {
+				return // the other list
+			}
+			only = false
+		}
+		if under && only {
+			origApp = call
+			n++
+		} else if under {
+			n = 99
+		}
+	})
+	if origApp == nil || n != 1 {
+		return -1
+	}
+	// the appended element is the loop element
+	el := appendedSingle(origApp)
+	isElem := false
+	if u, ok := el.(*ssa.UnOp); ok {
+		if ia, ok := u.X.(*ssa.IndexAddr); ok && ia.Index == loop.Index {
+			isElem = true
+		}
+		if al, ok := u.X.(*ssa.Alloc); ok {
+			// item := list[i] held in a local
+			for _, ref := range *al.Referrers() {
+				if st, ok := ref.(*ssa.Store); ok && st.Addr == ssa.Value(al) {
+					if u2, ok := st.Val.(*ssa.UnOp); ok {
+						if ia, ok := u2.X.(*ssa.IndexAddr); ok && ia.Index == loop.Index {
+							isElem = true
+						}
+					}
+				}
+			}
+		}
+	}
+	if !isElem {
+		return -1
+	}
+	reaches := func(v ssa.Value) bool {
+		seen := map[ssa.Value]bool{}
+		var walk func(v ssa.Value) bool
+		walk = func(v ssa.Value) bool {
+			if seen[v] {
+				return false
+			}
+			seen[v] = true
+			if v == ssa.Value(origApp) {
+				return true
+			}
+			if ph, ok := v.(*ssa.Phi); ok {
+				for _, e := range ph.Edges {
+					if walk(e) {
+						return true
+					}
+				}
+			}
+			return false
+		}
+		return walk(v)
+	}
+	out := -1
+	for _, ret := range ssau.ReturnsOf(g) {
+		found := -1
+		for i := range ret.Results {
+			if reaches(ssau.ResultValue(ret, i)) {
+				found = i
+			}
+		}
+		if found < 0 || (out >= 0 && out != found) {
+			return -1
+		}
+		out = found
+	}
+	return out
+}
+
+// c06ClassifierForm: ff takes the originals from a classification helper and
+// every result of ff is an append chain whose first append adds the terms of
+// all of them (through a plain item.term loop) to an empty list.
+func c06ClassifierForm(c *Ctx, ff *ssa.Function, lp *ssa.Parameter) (bool, string) {
+	sp, oi := c06ClassifierCall(c, ff, lp)
+	if sp == nil {
+		return false, "no classification of the scored list found"
+	}
+	isOrig := func(v ssa.Value) bool {
+		ex, ok := v.(*ssa.Extract)
+		return ok && ex.Tuple == ssa.Value(sp) && ex.Index == oi
+	}
+	var ok func(v ssa.Value, d int) bool
+	ok = func(v ssa.Value, d int) bool {
+		if d > 20 {
+			return false
+		}
+		switch x := v.(type) {
+		case *ssa.Phi:
+			for _, e := range x.Edges {
+				if !ok(e, d+1) {
+					return false
+				}
+			}
+			return len(x.Edges) > 0
+		case *ssa.Call:
+			if ssau.CallName(x) != "builtin.append" {
+				return false
+			}
+			a := x.Common().Args
+			if fc, isCall := a[1].(*ssa.Call); isCall && len(fc.Common().Args) == 1 && isOrig(fc.Common().Args[0]) && c06FlattensTerms(fc.Common().StaticCallee()) {
+				return ssau.IsNilConst(a[0]) || emptyFresh(a[0]) || c06EmptyMake(a[0])
+			}
+			return ok(a[0], d+1)
+		}
+		return false
+	}
+	for _, ret := range ssau.ReturnsOf(ff) {
+		if !ok(ssau.ResultValue(ret, 0), 0) {
+			return false, "the result at " + c.P.Pos(ret.Pos()) + " does not start with the terms of all original items: a budget or filter now applies to the user's own words"
+		}
+	}
+	return true, ""
+}
+
+// c06EmptyMake: make([]T, 0, n).
+func c06EmptyMake(v ssa.Value) bool {
+	mk, ok := v.(*ssa.MakeSlice)
+	if !ok {
+		return false
+	}
+	z, isC := ssau.ConstInt(mk.Len)
+	return isC && z == 0
 }
